@@ -14,7 +14,7 @@ import (
 
 func init() {
 	register(&Prop{ID: "C04", Run: runC04, MinNontrivial: 500,
-		Rule:        "cases = the C01 presentation list (transformer shapes, fuzzed trees, unmodified genuine responses with Response-level and/or assertion-level signatures, plain or encrypted) and the C10 logout list (all signing states), each presented to an SP with signature checking on and to a twin with it off; oracle: (i) an indicator is true only for an element the generator signed with a store key and whose returned fields equal the signed record, (ii) skip => every indicator false, (iii) checking on, accepted, Response indicator false => every returned assertion marked validated, (iv) AssertionInfo.ResponseSignatureValidated == Response.SignatureValidated; non-trivial = accepted by at least one of the twins; distinct by hash of the document and configuration; class nested-signed-assertion-in-advice (signed Response, top-level assertions with and without own signature, signed assertions nested in Advice); shared IDs among the top-level assertions of the nested class; one encrypted top-level assertion among plain ones in the nested class; class trusted-certificate-outside-validity (signer's certificate expired / not yet valid by 1 s - 48 h at the SP clock, IssueInstant at several distances: no indicator may be true)",
+		Rule:        "cases = the C01 presentation list (transformer shapes, fuzzed trees, unmodified genuine responses with Response-level and/or assertion-level signatures, plain or encrypted) and the C10 logout list (all signing states), each presented to an SP with signature checking on and to a twin with it off; oracle: (i) an indicator is true only for an element the generator signed with a store key and whose returned fields equal the signed record, (ii) skip => every indicator false, (iii) checking on, accepted, Response indicator false => every returned assertion marked validated, (iv) AssertionInfo.ResponseSignatureValidated == Response.SignatureValidated; non-trivial = accepted by at least one of the twins; distinct by hash of the document and configuration; class nested-signed-assertion-in-advice (signed Response, top-level assertions with and without own signature, signed assertions nested in Advice); shared IDs among the top-level assertions of the nested class; one encrypted top-level assertion among plain ones in the nested class; class issuer-not-configured (no IdP issuer configured, Response and assertions naming different issuers: the summary mirrors the Response indicator); class trusted-certificate-outside-validity (signer's certificate expired / not yet valid by 1 s - 48 h at the SP clock, IssueInstant at several distances: no indicator may be true)",
 		Assumptions: []string{"same simulator assumptions as C01/C10"}})
 }
 
@@ -112,6 +112,71 @@ func runC04(c *mon.Ctx) {
 			cs.Outcome("off:rejected")
 		}
 		cs.Sample(map[string]any{"on": fmt.Sprint(eOn), "off": fmt.Sprint(eOff)})
+	}
+
+	// ---- no IdP issuer configured: the Response and its assertions may then name different issuers (a front-end and
+	// the IdP proper); the summary still mirrors the Response indicator ----
+	ni := c.N(200, 8000)
+	for k := 0; k < ni; k++ {
+		cs := c.Begin("issuer-not-configured", k)
+		if cs == nil {
+			continue
+		}
+		r := cs.Rand()
+		signer := w.IdP[r.IntN(len(w.IdP))]
+		rec := sim.GenuineResponse(w.Env, 1+r.IntN(2))
+		rec.ID = sim.S(fmt.Sprintf("_n%08x", r.Uint32()))
+		for i, a := range rec.Assertions {
+			a.ID = sim.S(fmt.Sprintf("_na%d-%08x", i, r.Uint32()))
+			if r.IntN(2) == 0 {
+				a.Issuer = sim.S(pick(r, []string{"https://idp-backend.example.test/", "urn:idp:core", IdPIss + "/v2"}))
+			}
+		}
+		if r.IntN(2) == 0 {
+			rec.Issuer = sim.S(pick(r, []string{"https://idp-frontend.example.test/", "urn:idp:edge", ""}))
+		}
+		place := pick(r, []string{"resp", "assert", "both"})
+		for _, a := range rec.Assertions {
+			if place != "resp" {
+				a.Sig = randSigSpec(r, signer, true, false)
+			}
+		}
+		if place != "assert" {
+			rec.Sig = randSigSpec(r, signer, true, false)
+		}
+		doc, err := sim.BuildResponse(rec, sim.PlainStyle())
+		if err != nil {
+			cs.Inconclusive("simulator-error")
+			continue
+		}
+		cs.Desc("signatures=%s response issuer %q, assertion issuers %q", place, strOr(rec.Issuer), func() (o []string) {
+			for _, a := range rec.Assertions {
+				o = append(o, strOr(a.Issuer))
+			}
+			return
+		}())
+		cs.Input([]byte(doc))
+		enc := sim.Encode(doc, sim.RawLevel)
+		mk := func() *saml2.SAMLServiceProvider {
+			sp, _, _ := NewSP(w.Now, signer)
+			sp.IdentityProviderIssuer = ""
+			return sp
+		}
+		resp, e1 := mk().ValidateEncodedResponse(enc)
+		ai, e2 := mk().RetrieveAssertionInfo(enc)
+		if e1 != nil || e2 != nil {
+			cs.Outcome("rejected")
+			continue
+		}
+		cs.Nontrivial(cs.Description())
+		switch {
+		case resp.SignatureValidated != (place != "assert"):
+			cs.Violation("response-flag-wrong", "Response indicator %v for a Response whose own signature is %s", resp.SignatureValidated, map[bool]string{true: "present and trusted", false: "absent"}[place != "assert"])
+		case ai.ResponseSignatureValidated != resp.SignatureValidated:
+			cs.Violation("summary-flag-differs", "AssertionInfo.ResponseSignatureValidated=%v but Response.SignatureValidated=%v", ai.ResponseSignatureValidated, resp.SignatureValidated)
+		default:
+			cs.Outcome(fmt.Sprintf("mirrored-%v", resp.SignatureValidated))
+		}
 	}
 
 	// a trusted Response signature over assertions whose OWN signature does not verify:
